@@ -65,4 +65,164 @@ theorem locate_is_chain (fs : FS) (entryFile : String) (entryPacks : List PackAt
   | none => cases r <;> simp [hfs]
   | some p => simp
 
+/-! ### `Container::check` -/
+
+/-- the verdict over the content packs: every pack that could be located verifies -/
+def locatedAllOk (packs : List (Option Bool)) : Bool := packs.all (fun p => p.getD true)
+
+theorem gen_containerCheck_loop (m d : Bool) (packs : List (Option Bool)) :
+    ∀ (fuel idx : Nat), packs.length - idx < fuel →
+      Generated.containerCheck_loop m d packs idx fuel = some (locatedAllOk (packs.drop idx)) := by
+  intro fuel
+  induction fuel with
+  | zero => intro idx h; omega
+  | succ f ih =>
+    intro idx h
+    unfold Generated.containerCheck_loop
+    by_cases hi : idx < packs.length
+    · simp only [hi, if_true]
+      have hd : packs.drop idx = packs[idx] :: packs.drop (idx + 1) := List.drop_eq_getElem_cons hi
+      have hg : packs.getD idx none = packs[idx] := by simp [List.getD, List.getElem?_eq_getElem hi]
+      rw [hd, hg]
+      cases ha : packs[idx] with
+      | none =>
+        simp only [locatedAllOk, List.all_cons, Option.getD_none, Bool.true_and]
+        exact ih (idx + 1) (by omega)
+      | some r =>
+        cases r with
+        | true =>
+          simp only [locatedAllOk, List.all_cons, Option.getD_some, Bool.true_and, not_true_eq_false, if_false]
+          exact ih (idx + 1) (by omega)
+        | false => simp [locatedAllOk]
+    · have : packs.drop idx = [] := List.drop_eq_nil_of_le (by omega)
+      simp [hi, this, locatedAllOk]
+
+/-- **`Container::check` (translated on every run) terminates and answers: the manifest verifies, the
+    directory pack verifies, and every content pack that can be located verifies** — a pack that cannot be
+    located is skipped, and the loop goes on to the packs listed after it. -/
+theorem gen_containerCheck (m d : Bool) (packs : List (Option Bool)) :
+    Generated.containerCheck m d packs = some (m && d && locatedAllOk packs) := by
+  unfold Generated.containerCheck
+  cases m <;> cases d <;> simp
+  simpa using gen_containerCheck_loop true true packs (packs.length + 1) 0 (by omega)
+
+/-- what the reader model does for one listed pack during `containerCheck`: `none` = not located (skipped),
+    `some b` = located, re-opened blindly, verdict `b` -/
+def packCheckStep (H : Bytes → Bytes) (fs : FS) (c : ContainerView) (info : PackInfo) : Outcome (Option Bool) :=
+  match locate fs c.entryFile c.entryPacks info.uuid (locationString info.location) with
+  | .ok none => .ok none
+  | .ok (some l) =>
+    match blindOpen (bytesOfLocated fs l) with
+    | .ok packs =>
+      match packsCheck H (bytesOfLocated fs l) packs with
+      | .ok b => .ok (some b)
+      | .err k => .err k
+      | .panic s => .panic s
+      | .hang => .hang
+      | .fault => .fault
+    | .err k => .err k
+    | .panic s => .panic s
+    | .hang => .hang
+    | .fault => .fault
+  | .err k => .err k
+  | .panic s => .panic s
+  | .hang => .hang
+  | .fault => .fault
+
+/-- one step of the fold of the reader model's `containerCheck` -/
+def ccStep (H : Bytes → Bytes) (fs : FS) (c : ContainerView) (acc : Bool) (info : PackInfo) : Outcome Bool :=
+  if !acc then (pure false : Outcome Bool) else do
+    match ← locate fs c.entryFile c.entryPacks info.uuid (locationString info.location) with
+    | none => pure true
+    | some l =>
+      let g := bytesOfLocated fs l
+      let packs ← blindOpen g
+      packsCheck H g packs
+
+theorem ccStep_eval (H : Bytes → Bytes) (fs : FS) (c : ContainerView) (acc : Bool) (info : PackInfo) (v : Option Bool)
+    (h : packCheckStep H fs c info = .ok v) : ccStep H fs c acc info = .ok (acc && v.getD true) := by
+  unfold ccStep
+  cases acc with
+  | false => simp [pure]
+  | true =>
+    simp only [Bool.not_true, Bool.false_eq_true, if_false, Bool.true_and]
+    unfold packCheckStep at h
+    cases hl : locate fs c.entryFile c.entryPacks info.uuid (locationString info.location) with
+    | ok r =>
+      cases r with
+      | none =>
+        simp only [hl] at h
+        have hv : v = none := by cases v <;> simp_all
+        subst hv
+        simp [bind, Outcome.bind, pure]
+      | some l =>
+        simp only [hl] at h
+        cases hb : blindOpen (bytesOfLocated fs l) with
+        | ok packs =>
+          simp only [hb] at h
+          cases hp : packsCheck H (bytesOfLocated fs l) packs with
+          | ok bb =>
+            simp only [hp] at h
+            have hv : v = some bb := by cases v <;> simp_all
+            subst hv
+            simp [bind, Outcome.bind, hb, hp]
+          | err k => simp [hp] at h
+          | panic s => simp [hp] at h
+          | hang => simp [hp] at h
+          | fault => simp [hp] at h
+        | err k => simp [hb] at h
+        | panic s => simp [hb] at h
+        | hang => simp [hb] at h
+        | fault => simp [hb] at h
+    | err k => simp [hl] at h
+    | panic s => simp [hl] at h
+    | hang => simp [hl] at h
+    | fault => simp [hl] at h
+
+theorem containerCheck_fold (H : Bytes → Bytes) (fs : FS) (c : ContainerView) :
+    ∀ (infos : List PackInfo) (vs : List (Option Bool)) (acc : Bool),
+      infos.map (packCheckStep H fs c) = vs.map Outcome.ok →
+      infos.foldlM (ccStep H fs c) acc = .ok (acc && locatedAllOk vs) := by
+  intro infos
+  induction infos with
+  | nil =>
+    intro vs acc h
+    cases vs with
+    | nil => simp [locatedAllOk, pure]
+    | cons v vs => simp at h
+  | cons info rest ih =>
+    intro vs acc h
+    cases vs with
+    | nil => simp at h
+    | cons v vs =>
+      simp only [List.map_cons, List.cons.injEq] at h
+      obtain ⟨h1, h2⟩ := h
+      rw [List.foldlM_cons, ccStep_eval H fs c acc info v h1]
+      show (rest.foldlM (ccStep H fs c) (acc && v.getD true)) = _
+      rw [ih vs (acc && v.getD true) h2]
+      simp [locatedAllOk, Bool.and_assoc]
+
+/-- **The reader model's `containerCheck`, whenever every part answers, is the translated `Container::check`
+    over the verdicts of the parts**: manifest, directory pack, and for every listed content pack "not
+    located" or the verdict of the file it was located in. -/
+theorem containerCheck_is_source_check (H : Bytes → Bytes) (fs : FS) (c : ContainerView) (m d : Bool)
+    (vs : List (Option Bool))
+    (hm : manifestCheck H c.manifest = .ok m) (hd : packCheck H id c.dirPack = .ok d)
+    (hv : (c.infos.filter (fun i => i.kind ≠ .directory)).map (packCheckStep H fs c) = vs.map Outcome.ok) :
+    some (containerCheck H fs c) = Outcome.ok <$> Generated.containerCheck m d vs := by
+  rw [gen_containerCheck]
+  unfold containerCheck
+  simp only [hm, hd, bind, Outcome.bind]
+  cases m with
+  | false => simp
+  | true =>
+    cases d with
+    | false => simp
+    | true =>
+      simp only [Bool.not_true, Bool.false_eq_true, if_false]
+      have := containerCheck_fold H fs c _ vs true hv
+      simp only [Bool.true_and] at this
+      show some (List.foldlM (ccStep H fs c) true (c.infos.filter (fun i => i.kind ≠ .directory))) = _
+      rw [this]; simp
+
 end Jubako
